@@ -19,3 +19,6 @@ CHECKS = {
         "design_ref": "3/C22",
     },
 }
+
+# Properties not claimed, with the reason.
+NOT_APPLICABLE = {}
